@@ -190,8 +190,8 @@ def corrupt_trace(src, dst):
         for line in f:
             if not done:
                 e = json.loads(line)
-                if e.get("op") == "RecordQuestion" and e.get("hit") and e.get("q"):
-                    for row in e["q"]:
+                if e.get("op") == "RecordQuestion" and e.get("hit") and e.get("fq"):
+                    for row in e["fq"]:
                         if row[:5] == e["k"]:
                             row[6] = 299
                             e["rel"] = 299
